@@ -3,7 +3,7 @@ usage: python -m vlib.implrun <plugin module> <part index> <in.json> <out.json> 
 import sys, os, json, signal, importlib, warnings, traceback
 
 
-class CaseTimeout(Exception):
+class CaseTimeout(BaseException):      # BaseException: a plugin's broad `except Exception` must not swallow the per-case alarm
     pass
 
 
